@@ -382,6 +382,24 @@ def dtype_tag(d, default=None):
     raise Unsupported("dtype %r" % (d,))
 
 
+def int_width(d):
+    """(bits, signed) of a torch integer dtype narrower than 64 bits, else None: arithmetic in such a type wraps around"""
+    import torch
+
+    return {torch.uint8: (8, False), torch.int8: (8, True), torch.int16: (16, True), torch.int32: (32, True), torch.int: (32, True)}.get(d)
+
+
+def wrap_int(x, width):
+    """value of the mathematical integer x after storing it in a `width` integer type (two's complement wrap-around)"""
+    bits, signed = width
+    m = 2 ** bits
+    if not is_z3(x):
+        x = int(x) % m
+        return x - m if signed and x >= m // 2 else x
+    r = to_z3(x) % m
+    return z3.If(r >= m // 2, r - m, r) if signed else r
+
+
 def promote(a, b):
     order = {"bool": 0, "long": 1, "float": 2}
     return a if order[a] >= order[b] else b
@@ -1184,10 +1202,13 @@ def m_cumsum(I, t, dim, dtype=None):
     src = t.cast("long") if t.dtype == "bool" else t
     out = np.empty(src.a.shape, dtype=object)
     moved_in, moved_out = np.moveaxis(src.a, d, -1), np.moveaxis(out, d, -1)
+    width = int_width(dtype) if dtype is not None and not isinstance(dtype, str) else None
     for idx in np.ndindex(*moved_in.shape[:-1]):
         acc = 0
         for k in range(moved_in.shape[-1]):
             acc = sc_add(acc, moved_in[idx + (k,)])
+            if width is not None:  # the running sum is kept in a narrow integer type: it wraps around
+                acc = wrap_int(acc, width)
             moved_out[idx + (k,)] = acc
     r = CT(out, src.dtype)
     if dtype is not None and dtype_tag(dtype) != r.dtype:
